@@ -361,7 +361,7 @@ int main(int argc, char** argv) {
   if (!A.replay.empty()) return replay_main(A);
   g_crash_hook = crash_describe;
 
-  int maxdepth = int(A.geti("depth", T ? 64 : 3));
+  int maxdepth = int(A.geti("depth", T ? 64 : 4));
   const int NT = std::max(1, A.threads);
   double t0 = now_s();
   double deadline = t0 + A.deadline_s;
